@@ -132,8 +132,11 @@ Definition init_visible (c : cfg) (l : lname) : bool :=
 (* lists replaced by filter_display (or the unscoped filter) in the node's prune() *)
 Definition filtered (k : nkind) : list lname :=
   match k with
-  | NModule | NProgram | NProc =>
+  | NProgram | NProc =>
       [LFunctions; LSubroutines; LTypes; LInterfaces; LAbsInterfaces; LVariables; LEnums; LCommon; LNamelists]
+  | NModule =>     (* a separate module procedure may be implemented (`module procedure f`) in the module itself *)
+      [LFunctions; LSubroutines; LTypes; LInterfaces; LAbsInterfaces; LVariables; LEnums; LCommon; LNamelists;
+       LModProcedures]
   | NSubmodule => [LFunctions; LSubroutines; LTypes; LInterfaces; LAbsInterfaces; LVariables; LEnums; LCommon;
                    LNamelists; LModProcedures; LModSubroutines; LModFunctions]
   | NType => [LBoundProcs; LVariables; LFinalProcs]
